@@ -17,6 +17,9 @@ CFG = {
         "Leptos.Reactive.C02_wake_order",
         "Leptos.Reactive.C02_wake_order_inv",
         "Leptos.Reactive.C02_subs_order_kept",
+        "Leptos.Reactive.C02_no_glitch",
+        "Leptos.Reactive.C02_no_glitch_run",
+        "Leptos.Reactive.C02_no_glitch_noset",
     ],
     "harness_pkg": "hx-c01",
     "harness_bin": "c02",
